@@ -6,3 +6,9 @@
 ; intrinsic gas: base + 68 per non-zero byte + 4 per zero byte
 (define-fun intrinsic128 ((base (_ BitVec 64)) (nz (_ BitVec 64)) (len (_ BitVec 64))) (_ BitVec 128)
   (bvadd ((_ zero_extend 64) base) (bvadd (bvmul (_ bv68 128) ((_ zero_extend 64) nz)) (bvmul (_ bv4 128) ((_ zero_extend 64) (bvsub len nz))))))
+; observers of a message (transaction as seen by the state transition): pure functions of the
+; message value, so that repeated calls of the interface methods agree
+(declare-fun msg_gas (Iface) (_ BitVec 64))
+(declare-fun msg_nonce (Iface) (_ BitVec 64))
+(declare-fun msg_checknonce (Iface) Bool)
+(declare-fun msg_from (Iface) (Array (_ BitVec 64) (_ BitVec 8)))
